@@ -52,6 +52,69 @@ type entryFacts struct {
 	HasRealStat   bool
 }
 
+// deriveEntry derives, from the case description alone, what the property demands of one Entry
+// call: the facts, the expected call sequence of the recording slots, the deciding block error.
+func deriveEntry(ch *ChainSpec, o Op) (f *entryFacts, want []Call, blockBy *Berr, statPanic bool) {
+	f = &entryFacts{}
+	preps, checks, sts := sortedKind(ch, "prep"), sortedKind(ch, "check"), sortedKind(ch, "stat")
+	for _, p := range preps {
+		want = append(want, Call{K: "prep", ID: p.s.ID})
+		b := behOf(p.s, o.Flag).K
+		if b == "node" {
+			f.NodePrepared = true
+		}
+		if b == "panic" {
+			f.Panicked, f.PrepPanic = true, true
+			break
+		}
+	}
+	if !f.Panicked {
+		for _, k := range checks {
+			want = append(want, Call{K: "check", ID: k.s.ID})
+			b := behOf(k.s, o.Flag)
+			if b.K == "panic" {
+				f.Panicked = true
+				break
+			}
+			if b.K == "block" {
+				blockBy = b.B // the first blocking slot decides; no later rule-check slot runs
+				break
+			}
+		}
+	}
+	f.BlockDecision = blockBy != nil
+	for _, s := range sts {
+		if s.s.Real {
+			f.HasRealStat = true
+			continue
+		}
+		if blockBy != nil {
+			want = append(want, Call{K: "blocked", ID: s.s.ID, Res: o.Res, Batch: int64(o.Batch), B: blockBy})
+		} else {
+			want = append(want, Call{K: "passed", ID: s.s.ID, Res: o.Res, Batch: int64(o.Batch)})
+		}
+		if behOf(s.s, o.Flag).K == "panic" {
+			statPanic = true
+			f.Panicked = true
+			break
+		}
+	}
+	return f, recording(want), blockBy, statPanic
+}
+
+// EntryFacts derives the facts of every Entry call of the case (index = entry number).
+func EntryFacts(c *Case) map[int]*entryFacts {
+	facts := map[int]*entryFacts{}
+	n := 0
+	for _, o := range c.Ops {
+		if o.Kind == "entry" {
+			facts[n], _, _, _ = deriveEntry(&c.Chains[o.Chain], o)
+			n++
+		}
+	}
+	return facts
+}
+
 // MonitorC16 states C16 on the implementation's trace.
 func MonitorC16(c *Case, obs []Obs) (fails []Failure, facts map[int]*entryFacts, stats map[string]int) {
 	stats = map[string]int{}
@@ -79,57 +142,8 @@ func MonitorC16(c *Case, obs []Obs) (fails []Failure, facts map[int]*entryFacts,
 		}
 		switch o.Kind {
 		case "entry":
-			ch := &c.Chains[o.Chain]
-			f := &entryFacts{}
+			f, want, blockBy, statPanic := deriveEntry(&c.Chains[o.Chain], o)
 			facts[nent] = f
-			preps, checks, sts := sortedKind(ch, "prep"), sortedKind(ch, "check"), sortedKind(ch, "stat")
-			// expected call sequence, derived from the property
-			var want []Call
-			for _, p := range preps {
-				want = append(want, Call{K: "prep", ID: p.s.ID})
-				b := behOf(p.s, o.Flag).K
-				if b == "node" {
-					f.NodePrepared = true
-				}
-				if b == "panic" {
-					f.Panicked, f.PrepPanic = true, true
-					break
-				}
-			}
-			var blockBy *Berr
-			if !f.Panicked {
-				for _, k := range checks {
-					want = append(want, Call{K: "check", ID: k.s.ID})
-					b := behOf(k.s, o.Flag)
-					if b.K == "panic" {
-						f.Panicked = true
-						break
-					}
-					if b.K == "block" {
-						blockBy = b.B // the first blocking slot decides; no later rule-check slot runs
-						break
-					}
-				}
-			}
-			f.BlockDecision = blockBy != nil
-			statPanic := false
-			for _, s := range sts {
-				if s.s.Real {
-					f.HasRealStat = true
-					continue
-				}
-				if blockBy != nil {
-					want = append(want, Call{K: "blocked", ID: s.s.ID, Res: o.Res, Batch: int64(o.Batch), B: blockBy})
-				} else {
-					want = append(want, Call{K: "passed", ID: s.s.ID, Res: o.Res, Batch: int64(o.Batch)})
-				}
-				if behOf(s.s, o.Flag).K == "panic" {
-					statPanic = true
-					f.Panicked = true
-					break
-				}
-			}
-			want = recording(want)
 			wantBlocked := blockBy != nil && !statPanic
 			f.Blocked = ob.Kind == "blocked"
 			// clause: order / first block / once-only, all visible in the call log
